@@ -7,8 +7,9 @@ import model as M
 from common import ModelRun, model_classes, cx, pipeline_guard
 from drive import Result
 
-RULE = ("Hypothesis generates a small interacting model (N<=4), an index quadruple and a storage window size W in 0..4 (quick; 0..8 "
-        "thorough); for that case the box (n1,n2,n3) in [-W-3, W+2]^3 is enumerated exhaustively: Vertex4::operator() (storage with "
+RULE = ("Hypothesis generates a small interacting model (N<=4), an index quadruple and a sequence of 1-4 storage window sizes in 0..4 (quick; 0..8 "
+        "thorough) with which the same Vertex4 object is compute()d in turn (growing, shrinking, repeated); after every compute() the box "
+        "(n1,n2,n3) in [-W-3, W+2]^3 (W the largest window) is enumerated exhaustively: Vertex4::operator() (storage with "
         "fallback) must equal Vertex4::value (direct formula) at every triple (1e-15 relative), and value must equal "
         "chi + beta d(n1,n3) G13(n1) G24(n2) - beta d(n2,n3) G14(n1) G23(n2) recomputed by the harness from pomerol's chi and four "
         "separately constructed G objects.  Every case reaches triples inside, on the boundary of and outside the window; non-trivial: "
@@ -18,7 +19,8 @@ CONFIG = {
     "quick": {"flavours": ["real", "complex"], "shards": 8, "examples": 120, "min_nontrivial": 200, "budget_s": 100},
     "thorough": {"flavours": ["real", "complex"], "shards": 16, "examples": 150, "min_nontrivial": 500, "budget_s": 3300},
 }
-REQUIRED_CLASSES = {"quick": ["window=0", "window=1", "window>=2", "distinct-indices"], "thorough": ["window=0", "window=1", "window>=2", "window>=5", "distinct-indices"]}
+REQUIRED_CLASSES = {"quick": ["window=0", "window=1", "window>=2", "distinct-indices", "shrinking-recompute", "growing-recompute"],
+                    "thorough": ["window=0", "window=1", "window>=2", "window>=5", "distinct-indices", "shrinking-recompute", "growing-recompute"]}
 
 
 @st.composite
@@ -27,8 +29,10 @@ def strategy_(draw, tier):
     N = M.n_modes(mdl["sites"])
     ix = st.integers(0, N - 1)
     comp = draw(st.one_of(st.tuples(ix, ix, ix, ix), st.tuples(ix, ix).map(lambda t: (t[0], t[1], t[0], t[1])), st.tuples(ix, ix).map(lambda t: (t[0], t[1], t[1], t[0]))))
-    W = draw(st.integers(0, 4 if tier == "quick" else 8))
-    return {"model": mdl, "comp": list(comp), "window": W}
+    wmax = 4 if tier == "quick" else 8
+    # the same Vertex4 object is re-computed with a sequence of window sizes (growing, shrinking, repeated, zero)
+    Ws = draw(st.lists(st.integers(0, wmax), min_size=1, max_size=4))
+    return {"model": mdl, "comp": list(comp), "windows": Ws}
 
 
 def strategy(tier):
@@ -37,9 +41,9 @@ def strategy(tier):
 
 def execute(case, ctx):
     mdl = case["model"]; beta = mdl["beta"]
-    i, j, k, l = case["comp"]; W = case["window"]
+    i, j, k, l = case["comp"]; Ws = case["windows"]; W = max(Ws)
     lo, hi = -W - 3, W + 2
-    q = [("ops", "ops 0"), ("V", "vertex ct %d %d %d %d %d %d %d" % (i, j, k, l, W, lo, hi))]
+    q = [("ops", "ops 0"), ("V", "vertex ct %d %d %d %d %s %d %d" % (i, j, k, l, ",".join(map(str, Ws)), lo, hi))]
     run = ModelRun(ctx, mdl, q, timeout=300)
     classes = model_classes(mdl)
     g = pipeline_guard(run, classes, run.qlines["ops"])
@@ -54,20 +58,25 @@ def execute(case, ctx):
             return fail("%s threw: %s" % (tag, a and a.get("exc")), "exc:" + tag)
     V = run.q("V")
     w = hi - lo + 1
-    op = np.array(V["op"]); op = op[:, 0] + 1j * op[:, 1]
+    ops = []
+    for o in V["ops"]:
+        o = np.array(o); ops.append(o[:, 0] + 1j * o[:, 1])
     val = np.array(V["value"]); val = val[:, 0] + 1j * val[:, 1]
     chi = np.array(V["chi"]); chi = chi[:, 0] + 1j * chi[:, 1]
     G = {name: np.array([cx(v) for v in V[name]]) for name in ("g13", "g24", "g14", "g23")}
-    if len(op) != w ** 3:
+    if any(len(o) != w ** 3 for o in ops) or len(ops) != len(Ws):
         return fail("wrong number of values", "shape")
     pos = 0
     anynz = False
     for n1 in range(lo, hi + 1):
         for n2 in range(lo, hi + 1):
             for n3 in range(lo, hi + 1):
-                a, b, c = op[pos], val[pos], chi[pos]
-                if not abs(a - b) <= 1e-15 * abs(b):
-                    return fail("window %d: Vertex4(%d,%d,%d) through the storage = %r, direct value = %r" % (W, n1, n2, n3, a, b), "storage")
+                b, c = val[pos], chi[pos]
+                for step, o in enumerate(ops):
+                    a = o[pos]
+                    if not abs(a - b) <= 1e-15 * abs(b):
+                        return fail("after compute(%s): Vertex4(%d,%d,%d) through the storage = %r, direct value = %r" % (
+                            ",".join(map(str, Ws[:step + 1])), n1, n2, n3, a, b), "storage")
                 want = c
                 if n1 == n3:
                     want = want + beta * G["g13"][n1 - lo] * G["g24"][n2 - lo]
@@ -78,9 +87,14 @@ def execute(case, ctx):
                 if abs(b) > 0:
                     anynz = True
                 pos += 1
-    classes.append("window=%d" % W if W < 2 else "window>=2")
+    for Wk in Ws:
+        classes.append("window=%d" % Wk if Wk < 2 else "window>=2")
     if W >= 5:
         classes.append("window>=5")
+    if any(b_ < a_ for a_, b_ in zip(Ws, Ws[1:])):
+        classes.append("shrinking-recompute")
+    if any(b_ > a_ for a_, b_ in zip(Ws, Ws[1:])):
+        classes.append("growing-recompute")
     if len({i, j}) == 2 and len({k, l}) == 2:
         classes.append("distinct-indices")
     return Result("ok", sorted(set(classes)), anynz)
